@@ -24,6 +24,7 @@ def sh(cmd, **kw):
 
 
 def evaluate(sdir, props, tier, baseline, demo):
+    sdir = os.path.abspath(sdir)
     meta = json.load(open(os.path.join(sdir, 'meta.json')))
     props = props or [meta['property']]
     wt = tempfile.mkdtemp(prefix='seedwt-', dir='/tmp')
